@@ -213,6 +213,7 @@ pub fn explore<S: Scenario>(sc: &S, lim: &Limits, seed_perm: u64) -> Report {
     let mut cap_hit = None;
     let mut deepest: Option<(Fp, u32)> = None;
     let mut layer_rate: f64 = 0.0;
+    let mut growth: f64 = 8.0;
     for d in 0..lim.max_depth {
         if frontier.is_empty() {
             depth_completed = lim.max_depth; // fixpoint: nothing left to explore at any depth
@@ -226,6 +227,17 @@ pub fn explore<S: Scenario>(sc: &S, lim: &Limits, seed_perm: u64) -> Report {
                 cap_hit = Some(format!("wall-clock cap {}s: layer {} (frontier {}) estimated {:.0}s, not started", lim.max_secs, d + 1, frontier.len(), est));
                 break;
             }
+        }
+        let rss = rss_gb();
+        if rss > 36.0 {
+            cap_hit = Some(format!("memory cap: resident set {:.1} GB before layer {}", rss, d + 1));
+            break;
+        }
+        // a frontier state costs roughly 10 kB; the next layer is about as many times larger as this one was
+        // the successors of this layer are stored unless it is the last one; estimate them from the last growth factor
+        if d + 1 < lim.max_depth && frontier.len() as f64 * growth.max(2.0) * 12_000.0 > 30.0e9 {
+            cap_hit = Some(format!("memory cap: successors of a frontier of {} states (growth x{:.1}) would not fit; layer {} not started", frontier.len(), growth, d + 1));
+            break;
         }
         if states > lim.max_states {
             cap_hit = Some(format!("state cap {} reached before layer {}", lim.max_states, d + 1));
@@ -342,6 +354,9 @@ pub fn explore<S: Scenario>(sc: &S, lim: &Limits, seed_perm: u64) -> Report {
             secs,
             t0.elapsed().as_secs_f64()
         );
+        if fl > 0 && !acc.next.is_empty() {
+            growth = acc.next.len() as f64 / fl as f64;
+        }
         frontier = acc.next;
     }
     let _ = deepest;
@@ -419,6 +434,10 @@ pub fn explore<S: Scenario>(sc: &S, lim: &Limits, seed_perm: u64) -> Report {
         seeds: seed_names,
         alphabet_sample,
     }
+}
+
+fn rss_gb() -> f64 {
+    std::fs::read_to_string("/proc/self/statm").ok().and_then(|t| t.split_whitespace().nth(1).and_then(|x| x.parse::<f64>().ok())).map(|pages| pages * 4096.0 / 1.0e9).unwrap_or(0.0)
 }
 
 fn reconstruct<S: Scenario>(sc: &S, visited: &DashMap<Fp, (Fp, u32)>, seeds: &[(String, Chain, S::G)], mut fp: Fp) -> (String, Vec<Action>) {
